@@ -16,6 +16,17 @@ Tie:
    slot functions are compared with the Python functions on boundary and random coordinates.
 Oracle: the specification map itself (a Python dict address -> payload), evaluated on what the implementation
 returned, independent of the Coq model.
+
+Further streams (search for failing inputs; the models see them through what was observed):
+ * compact caches with a write fault: the n-th write() of a store fails with EIO; the store then either took place
+   or did not (read back at once), and every later operation must still answer like the map (a failed store must
+   not make a later store to another address of the bundle change this one);
+ * compact caches whose bundle file has grown past 4 GiB (bundles only grow; the dead space is a sparse hole):
+   records beyond 2^32 are stored, bulk stored, loaded, removed;
+ * the real TileManager (meta tiles, single tiles, bulk meta tiles) on a file cache with a TIME dimension under the
+   schedules in which another request stores the tiles between this request's look-up and its tile lock: the
+   request returns what is stored for exactly (coord, TIME value), tiles at the same coordinate with another / no
+   dimension value stay untouched.  Oracle only (the tile manager is not part of the C05 models).
 """
 import glob
 import itertools
@@ -49,7 +60,8 @@ TRUSTED = ['translator specs path.py / compact_slot.py / sqlbatch.py (ast -> Gal
            'models FileCache.v / SqlCache.v hand-written from mapproxy/cache/file.py, mbtiles.py, geopackage.py',
            'SQLite = relation with unique key (INSERT OR REPLACE / SELECT / DELETE); file system = map path -> node with '
            'atomic rename, unlink, link, symlink; directories implicit',
-           'compact caches: keyed store over (bundle file, index slot); byte level proved in C19',
+           'compact caches: keyed store over (bundle file, index slot); byte level proved in C19; a store interrupted by '
+           'a write error is, for the model, the store it is observed to be (complete or absent)',
            'payloads are opaque; single-colour payloads are canonical per colour (same tile size in one cache)']
 ASSUMPTIONS = ['tile coordinates and levels are non-negative',
                'all addresses of one cache use the same dimension keys (lower case, distinct); values are arbitrary text',
@@ -987,7 +999,7 @@ def tilemanager_cases(ctx, pay):
         for mode in ('meta', 'single', 'bulk-meta'):
             for gate in ('none', 'after-lookup', 'after-is-cached'):
                 for prefill in ('nothing', 'no-dimension', 'other-value'):
-                    if ctx.quick and layout in ('mp', 'reverse_tms') and prefill == 'nothing':
+                    if ctx.quick and layout in ('mp', 'reverse_tms'):
                         continue
                     n += 1
                     d = ctx.tmpdir('tm')
@@ -1100,7 +1112,7 @@ def run(ctx):
             else:
                 alpha = exhaustive_alphabet(tr, p, q)
             hists = list(itertools.product(alpha, repeat=ex_len))
-            cap = ctx.n(90 if slow else 180, 800 if slow else 2000)
+            cap = ctx.n(80 if slow else 150, 800 if slow else 2000)
             if len(hists) > cap:
                 hists = rng.sample(hists, cap)
             # a sample of longer ones
